@@ -491,6 +491,43 @@ def probe(seed, n=2):
   return g.standard_normal((n,) + IN_SHAPE).astype(np.float32)
 
 
+def breakpoint_mask(ctx, w, ref, x, r64, tol):
+  """Elements of the reference output that are stable under float noise in the
+  pre-activations (all of them when no activation quantizer is involved);
+  None when most of the probe is unstable."""
+  tf = tf_setup()
+  judged = np.ones(r64.shape, dtype=bool)
+  has_act_q = any(type(l).__name__ == "QActivation" or (
+      type(l).__name__ in FOLDED and l.activation is not None and
+      getattr(l.activation, "__name__", "") != "linear")
+                  for l in w.model.layers)
+  if not has_act_q:
+    return judged
+  # an activation quantizer behind a folded layer rounds the folded output:
+  # an element whose pre-activation sits within float noise of a rounding
+  # breakpoint may legitimately land on either side.  Such elements are found
+  # on the REFERENCE alone (they move when the folded kernel and bias of
+  # every replaced layer are scaled by 1 +- 3e-6, which scales every
+  # pre-activation by that factor) and are not judged.
+  names = [l.name for l in w.folded()]
+  orig = {n: ref.get_layer(n).get_weights() for n in names}
+  for f in (1.0 + 3e-6, 1.0 - 3e-6):
+    for n in names:
+      ref.get_layer(n).set_weights([(a.astype(np.float64) * f).astype(
+          np.float32) for a in orig[n]])
+    y2 = np.asarray(ref(tf.constant(x), training=False).numpy()).astype(
+        np.float64)
+    judged &= np.abs(y2 - r64) <= tol
+  for n in names:
+    ref.get_layer(n).set_weights(orig[n])
+  if judged.mean() < 0.5:
+    ctx.probe("activation_breakpoint_probe_not_judged")
+    return None
+  if not judged.all():
+    ctx.probe("activation_breakpoint_elements_not_judged")
+  return judged
+
+
 def infer_probe(ctx, w, op, tag="infer"):
   tf = tf_setup()
   x = probe(op.get("xseed", 1))
@@ -530,9 +567,18 @@ def infer_probe(ctx, w, op, tag="infer"):
     elif d is not None and it < d:
       ctx.probe("probe_in_pre_freeze_window")
   y64, r64 = y.astype(np.float64), yr.astype(np.float64)
+  if not np.isfinite(r64).all():
+    # parameters that diverged in a real training step: the reference built
+    # from them is not finite either, nothing about folding to judge
+    ctx.probe("reference_not_finite_not_judged")
+    return
   tol = 1e-4 * max(1e-6, float(np.abs(r64).max())) + 1e-5
+  judged = breakpoint_mask(ctx, w, ref, x, r64, tol) \
+      if y64.shape == r64.shape else np.ones(r64.shape, dtype=bool)
+  if judged is None:
+    return
   if y64.shape != r64.shape or not np.isfinite(y64).all() or \
-      np.abs(y64 - r64).max() > tol:
+      np.abs(y64 - r64)[judged].max() > tol:
     kinds = sorted({type(l).__name__ + ":" + l.folding_mode
                     for l in w.folded()})
     quant = any((getattr(l, "kernel_quantizer_internal", None) or
@@ -629,11 +675,23 @@ def apply_op(ctx, w, op):
       return
     yu = M.predict(um, x)
     tol = 1e-4 * max(1e-6, float(np.abs(y).max())) + 1e-5
-    _, stable = reference_model(w.model)
+    ref, stable = reference_model(w.model)
     if not stable:
       ctx.probe("folded_value_near_rounding_breakpoint_not_judged")
       return
-    if y.shape != yu.shape or np.abs(y.astype(np.float64) - yu).max() > tol:
+    if not np.isfinite(y).all():
+      ctx.probe("reference_not_finite_not_judged")
+      return
+    judged = np.ones(y.shape, dtype=bool)
+    if y.shape == yu.shape:
+      r64 = np.asarray(ref(tf.constant(x), training=False).numpy()).astype(
+          np.float64)
+      judged = breakpoint_mask(ctx, w, ref, x, r64, tol) \
+          if r64.shape == y.shape else judged
+      if judged is None:
+        return
+    if y.shape != yu.shape or np.abs(y.astype(np.float64) - yu)[
+        judged].max() > tol:
       ctx.violation("unfold|predictions-differ|%s" % ";".join(sorted(
           {type(l).__name__ for l in w.folded()})),
           "unfold_model changes inference predictions by %g (tolerance %g)" % (
